@@ -4,3 +4,6 @@ Import ListNotations.
 (** rows: theta with its finiteness as traced from the implementation; verdicts: FK cross-check recorded per candidate *)
 Definition run_finish (sg off : list Q) (rows : list (list (Q * bool))) (verdicts : list (list Q * bool)) : list Z :=
   sols_out (finish hpQ sg off (lookup_cand verdicts) rows).
+(** 5-DOF variant: 8x5 table, the caller's J6, position verdict per candidate *)
+Definition run_finish5 (sg off : list Q) (j6 : Q) (rows : list (list (Q * bool))) (verdicts : list (list Q * bool)) : list Z :=
+  sols_out (finish5 hpQ sg off (lookup_cand verdicts) j6 rows).
